@@ -414,8 +414,22 @@ macro_rules! int_op{
 int_op!(Plus,+);
 int_op!(Minus,-);
 int_op!(Multiply,*);
-int_op!(Divide,/);
-int_op!(Mod,%);
+function!(Divide(a: Integer, b: Integer)=>Integer, {
+    let a:i64 = a.try_into()?;
+    let b:i64 = b.try_into()?;
+    if b == 0 {
+        bail!("division by zero: {} / {}", a, b)
+    }
+    a.checked_div(b).map(Into::into).ok_or_else(|| err_msg(format!("integer overflow: {} / {}", a, b)))
+});
+function!(Mod(a: Integer, b: Integer)=>Integer, {
+    let a:i64 = a.try_into()?;
+    let b:i64 = b.try_into()?;
+    if b == 0 {
+        bail!("division by zero: {} % {}", a, b)
+    }
+    a.checked_rem(b).map(Into::into).ok_or_else(|| err_msg(format!("integer overflow: {} % {}", a, b)))
+});
 int_op!(BitAnd,&);
 int_op!(BitOr,|);
 int_op!(BitXor,^);
